@@ -16,7 +16,7 @@ from concurrent.futures import ProcessPoolExecutor
 from . import tlc
 from .common import Check, MachineryFailure, validate_rows
 
-PO = ["p", "T0", "self", "x"]
+PO = ["p", "T0", "self", "x", "ret0", "default0", "fn0"]
 PK = ["q", "default0", "ret0", "f", "args", "T1"]
 KO = ["k", "T2", "default1", "kwargs", "ret1", "name"]
 
@@ -70,10 +70,11 @@ def worker(args):
             names = {"po": rng.choice(PO), "va": "va", "vk": "vk"}
             names["pk"] = rng.choice([n for n in PK if n != names["po"]])
             names["ko"] = rng.choice([n for n in KO if n not in (names["po"], names["pk"])])
-            if rng.random() < .3 and "args" not in names.values():
-                names["va"] = "args"
-            if rng.random() < .3 and "kwargs" not in names.values():
-                names["vk"] = "kwargs"
+            # *args / **kwargs named like the wrapper's generated names (ret0, T0, default0 ...), whatever their kind
+            if rng.random() < .4:
+                names["va"] = rng.choice([n for n in ("args", "ret0", "T0", "default0", "ret1") if n not in names.values()])
+            if rng.random() < .4:
+                names["vk"] = rng.choice([n for n in ("kwargs", "ret0", "ret1", "default0", "T0") if n not in names.values()])
             kind = rng.choice(["def", "def", "def", "async", "lambda"])
             with_ret = kind == "def" and rng.random() < .5
             annot_var = rng.random() < .4          # *args / **kwargs annotated too: every extra argument is checked
